@@ -960,7 +960,10 @@ func (k Keeper) EncodeOracleAttestationData(
 	var queryIdBytes32 [32]byte
 	copy(queryIdBytes32[:], queryId)
 
-	// Convert value to bytes
+	// Convert value to bytes; report values may carry the 0x prefix they were submitted with
+	if len(value) >= 2 && value[0] == '0' && (value[1] == 'x' || value[1] == 'X') {
+		value = value[2:]
+	}
 	valueBytes, err := hex.DecodeString(value)
 	if err != nil {
 		return nil, err
